@@ -4,6 +4,7 @@ import (
 	"fmt"
 	"reflect"
 	"sort"
+	"strings"
 
 	"package-operator.run/internal/packages/verifsim/choice"
 	"package-operator.run/internal/packages/verifsim/store"
@@ -60,8 +61,25 @@ func (m *MonC14) OnReq(w *World, r *Req) {
 				sl, _ := pm["slices"].([]any)
 				for _, sx := range sl {
 					if sx == r.Name {
-						w.Report(Violation{Property: "C14", Rule: "slice-gc-referenced", Sig: shortSite(r.Site), Seq: r.Seq,
-							Msg: fmt.Sprintf("%s deleted slice %s while %s still references it", r.Actor, k, ok)})
+						// what did the deleting pass itself know about the holder of the reference?
+						how := "template"
+						if isObjectSetKind(ok.Kind) {
+							how = "unlisted-set" // created after (or invisible to) the pass's listing of ObjectSets
+							if seen, found := r.Pass.LastSeen("mgmt", ok, r.Seq); found && seen != nil {
+								how = "listed-set-without-reference"
+								for _, spx := range PhasesOf(seen) {
+									spm, _ := spx.(map[string]any)
+									ssl, _ := spm["slices"].([]any)
+									for _, ssx := range ssl {
+										if ssx == r.Name {
+											how = "listed-set"
+										}
+									}
+								}
+							}
+						}
+						w.Report(Violation{Property: "C14", Rule: "slice-gc-referenced", Sig: shortSite(r.Site) + "/" + how, Seq: r.Seq,
+							Msg: fmt.Sprintf("%s deleted slice %s while %s still references it (%s: what the deleting pass had seen of that object)", r.Actor, k, ok, how)})
 						return
 					}
 				}
@@ -70,10 +88,50 @@ func (m *MonC14) OnReq(w *World, r *Req) {
 	}
 }
 
+// stuckTeardown: an ObjectSet that lists objects through slices must get through
+// deletion/archival like an inline one. At quiescence (no store change over two
+// rounds of every pending timer) an ObjectSet that is being deleted or archived
+// and whose last pass failed on its ObjectSlices will never finish.
+func (m *MonC14) stuckTeardown(w *World) {
+	for _, k := range sortedKeys(w.Mgmt.Objs) {
+		if k.Group != PKOGroup || !isObjectSetKind(k.Kind) {
+			continue
+		}
+		o := w.Mgmt.Objs[k]
+		archived := store.Str(o, "spec", "lifecycleState") == "Archived"
+		if !store.Deleting(o) && !archived {
+			continue
+		}
+		if archived && !store.Deleting(o) {
+			if c := FindCond(o, "Archived"); c != nil && c.Status == "True" {
+				continue
+			}
+		}
+		var last *Pass
+		for _, p := range w.Passes {
+			if p.Done && p.Ctrl == k.Kind && p.Key.Name == k.Name && p.Key.Namespace == k.Namespace {
+				last = p
+			}
+		}
+		if last == nil || last.Err == nil || last.Faulted || last.Crashed || !strings.Contains(last.Err.Error(), "ObjectSlice") {
+			continue
+		}
+		m.touch()
+		what := "deleted"
+		if !store.Deleting(o) {
+			what = "archived"
+		}
+		w.Report(Violation{Property: "C14", Rule: "sliced-teardown-stuck", Sig: what, Seq: last.EndSeq,
+			Msg: fmt.Sprintf("at quiescence %s is %s but its teardown cannot finish: pass %d ended with %q; the same ObjectSet with inline objects has nothing that can block its teardown this way", k, what, last.ID, last.Err.Error())})
+		return
+	}
+}
+
 // OnQuiescent checks, for package scenarios, that the in-order concatenation of
 // the slices of every template phase equals the rendered phase (the generator
 // knows what every admissible spec renders to).
 func (m *MonC14) OnQuiescent(w *World, epoch int) {
+	m.stuckTeardown(w)
 	g := pkgGen(w)
 	if g == nil {
 		return
@@ -260,14 +318,14 @@ func planC14(w *World, spec RunSpec) {
 		w.Cfg.Packages = true
 		w.drawFaultMix("err-before", "lost-response", "crash", "compaction", "duplicate", "pull-error")
 		w.Cfg.Ndist = 120 + s.Intn(500, "ndist")
-		w.Scenario = GenPKG(w, 5)
+		w.Scenario = GenPKG(w, 5, "final-delete")
 	} else if spec.Index%4 == 3 {
 		s := w.Scn
 		w.setupCommon(6)
 		w.drawFaultMix("err-before", "lost-response", "crash", "compaction", "duplicate")
 		w.Cfg.Faults["drift"] = !w.Cfg.FaultFree
 		w.Cfg.Ndist = 150 + s.Intn(500, "ndist")
-		w.Scenario = GenOD(w, ODProfile{MaxEdits: 5, Limits: true, NeverReady: !s.Chance(1, 4, "all-ready"), Slices: true})
+		w.Scenario = GenOD(w, ODProfile{MaxEdits: 5, Limits: true, NeverReady: !s.Chance(1, 4, "all-ready"), Slices: true, FinalDelete: true})
 	} else {
 		c14Scenario(w, 1)
 	}
